@@ -1679,6 +1679,10 @@ class TeX(object):
                 for t in self.itertokens():
                     num = number(sign * ord(t))
                     break
+                # like every other constant, a character constant may
+                # be followed by one optional space
+                if optspace:
+                    self.readOneOptionalSpace()
             break
         ParameterCommand.enable()
         if num is not None:
